@@ -90,13 +90,15 @@ func exhConfigs() []exhCfg {
 		{ring: rp(1, true, "pp", "p"), bound: U, est: 1257712, thorough: true},
 		{ring: rp(0, true, "p", "p", "p"), bound: U, est: 2644800, thorough: true},
 		{ring: rp(1, false, "pp", "p", "p"), bound: U, est: 3195826, thorough: true},
-		{ring: rp(1, true, "p", "p", "p"), bound: U, est: 26044944, thorough: true},
+		// rp(1, true, "p", "p", "p") has 26,044,944 schedules (measured once, all passed); it is
+		// enumerated up to 2 and 3 preemptions below to keep the thorough tier near 10 minutes
 		// ring, every schedule with a bounded number of preemptions
 		{ring: rp(1, false, "pp", "pp"), bound: 2, est: 2144},
 		{ring: rp(2, true, "pp", "p"), bound: 2, est: 6409},
 		{ring: rp(1, true, "pp", "p"), bound: 2, est: 21643},
 		{ring: rp(1, false, "pp", "p", "p"), bound: 2, est: 52106},
 		{ring: rp(1, true, "p", "p", "p"), bound: 2, est: 256464, thorough: true},
+		{ring: rp(1, true, "p", "p", "p"), bound: 3, est: 1364952, thorough: true},
 		{ring: rp(2, true, "pF", "pp", "p"), bound: 2, est: 1295039, thorough: true},
 		{ring: rp(2, false, "FFFF", "FFFF", "pFp"), bound: 2, est: 465878, thorough: true}, // grows past 8 and shrinks back
 		{ring: rp(2, false, "FFFFF", "FFFF"), bound: 2, est: 20000},                        // grows past 8 and shrinks back
